@@ -178,3 +178,44 @@ func graft(r *rng, e *entry, s string) string {
 	}
 	return ""
 }
+
+// graftSystematic enumerates, for every golden input, every node and every absent optional single child, the two insertions.
+func graftSystematic(r *rng, emit func(e *entry, s string)) {
+	bank.once.Do(bank.build)
+	for _, cf := range corpusFiles() {
+		if cf.Bad {
+			continue
+		}
+		e := entryByName(entryForDir(cf.Dir))
+		res := safeParse(e, cf.Text)
+		if res.hung || res.panicked != nil || res.err != nil {
+			continue
+		}
+		s := cf.Text
+		for _, root := range res.nodes {
+			for _, n := range allNodes(root) {
+				var slots []slot
+				forEachSlot(n, func(sl slot) { slots = append(slots, sl) })
+				for i, sl := range slots {
+					texts := bank.texts[sl.typ]
+					if sl.many || len(sl.nodes) != 0 || len(texts) == 0 {
+						continue
+					}
+					txt := texts[r.intn(len(texts))]
+					at := -1
+					for j := i - 1; j >= 0 && at < 0; j-- {
+						if k := len(slots[j].nodes); k > 0 {
+							at = int(slots[j].nodes[k-1].End())
+						}
+					}
+					if at >= 0 && at <= len(s) {
+						emit(e, s[:at]+" "+txt+" "+s[at:])
+					}
+					if end := int(n.End()); end >= 0 && end <= len(s) && end != at {
+						emit(e, s[:end]+" "+txt+" "+s[end:])
+					}
+				}
+			}
+		}
+	}
+}
